@@ -322,12 +322,17 @@ theorem upperQuoted_append_esc {h1 h2 : Char} (hh1 : isHexDigit h1 = true) (hh2 
   simp [render_append, upperTok, renderTok]
 
 /-- `safely_quote` works piecewise around every escape of the string, and keeps it as written -/
+theorem safelyQuoteBy_append_esc (f : Char → Bool) {h1 h2 : Char} (hh1 : isHexDigit h1 = true) (hh2 : isHexDigit h2 = true)
+    (a b : Str) :
+    safelyQuoteBy f (a ++ '%' :: h1 :: h2 :: b) = safelyQuoteBy f a ++ '%' :: h1 :: h2 :: safelyQuoteBy f b := by
+  unfold safelyQuoteBy
+  rw [tokens_append_esc hh1 hh2]
+  simp [quoteToksBy, quoteTokBy, render_append, renderTok, render]
+
 theorem safelyQuote_append_esc {h1 h2 : Char} (hh1 : isHexDigit h1 = true) (hh2 : isHexDigit h2 = true)
     (a b : Str) :
     safelyQuote (a ++ '%' :: h1 :: h2 :: b) = safelyQuote a ++ '%' :: h1 :: h2 :: safelyQuote b := by
-  unfold safelyQuote
-  rw [tokens_append_esc hh1 hh2]
-  simp [quoteToks, quoteTok, render_append, renderTok, render]
+  simp only [safelyQuote_eq_by]; exact safelyQuoteBy_append_esc _ hh1 hh2 a b
 
 /-! ### the position mask of the scan -/
 
@@ -484,18 +489,18 @@ theorem escapeRaw_map_upperTok (ts : List Tok) :
     | esc h1 h2 => rfl
     | stray => rfl
 
-theorem quoteToks_map_upperTok (ts : List Tok) :
-    quoteToks (ts.map upperTok) = (quoteToks ts).map upperTok := by
+theorem quoteToksBy_map_upperTok (f : Char → Bool) (ts : List Tok) :
+    quoteToksBy f (ts.map upperTok) = (quoteToksBy f ts).map upperTok := by
   obtain ⟨e2, e0, e5⟩ := upperChar_digits
   induction ts with
   | nil => rfl
   | cons t r ih =>
-    simp only [quoteToks, List.map_cons, List.flatMap_cons, List.map_append] at ih ⊢
+    simp only [quoteToksBy, List.map_cons, List.flatMap_cons, List.map_append] at ih ⊢
     rw [ih]
     congr 1
     cases t with
     | raw c =>
-      simp only [upperTok, quoteTok]
+      simp only [upperTok, quoteTokBy]
       split
       · rfl
       · exact (map_eq_self (fun x hx => by
@@ -503,7 +508,11 @@ theorem quoteToks_map_upperTok (ts : List Tok) :
           obtain ⟨b, _, rfl⟩ := hx
           exact upperTok_escOfByte b)).symm
     | esc h1 h2 => rfl
-    | stray => simp [upperTok, quoteTok, e2, e5]
+    | stray => cases hp : f '%' <;> simp [upperTok, quoteTokBy, e2, e5, hp]
+
+theorem quoteToks_map_upperTok (ts : List Tok) :
+    quoteToks (ts.map upperTok) = (quoteToks ts).map upperTok := by
+  simp only [quoteToks_eq_by]; exact quoteToksBy_map_upperTok _ ts
 
 /-- upper-casing the escapes before or after a safe unquoter is the same -/
 theorem safelyUnquote_upperQuoted (U : List UInt8) (hpct : (0x25 : UInt8) ∈ U) (s : Str) :
@@ -514,10 +523,14 @@ theorem safelyUnquote_upperQuoted (U : List UInt8) (hpct : (0x25 : UInt8) ∈ U)
     tokens_safelyUnquote U hpct]
 
 /-- upper-casing the escapes before or after `safely_quote` is the same -/
+theorem safelyQuoteBy_upperQuoted {f : Char → Bool} (hf : SafeSet f) (s : Str) :
+    safelyQuoteBy f (upperQuoted s) = upperQuoted (safelyQuoteBy f s) := by
+  show render (quoteToksBy f (tokens (upperQuoted s))) = render ((tokens (safelyQuoteBy f s)).map upperTok)
+  rw [tokens_upperQuoted, quoteToksBy_map_upperTok, tokens_safelyQuoteBy hf]
+
 theorem safelyQuote_upperQuoted (s : Str) :
     safelyQuote (upperQuoted s) = upperQuoted (safelyQuote s) := by
-  show render (quoteToks (tokens (upperQuoted s))) = render ((tokens (safelyQuote s)).map upperTok)
-  rw [tokens_upperQuoted, quoteToks_map_upperTok, tokens_safelyQuote]
+  simp only [safelyQuote_eq_by]; exact safelyQuoteBy_upperQuoted safeSet_quoteSafe s
 
 /-- an output token is never a raw space -/
 theorem outTok_not_space {U : List UInt8} {ts : List Tok} (h : OutTok U ts (.raw ' ')) : False := by
@@ -544,13 +557,13 @@ and `q` does not see it. -/
 
 /-- a raw ASCII character that `quote` escapes and the unquoter then keeps escaped (a raw
 delimiter or control character), spelled as that escape -/
-def harden (U : List UInt8) : Tok → Tok
-  | .raw c => if cleanRaw U c = true then .raw c else escOfByte (UInt8.ofNat c.toNat)
+def hardenBy (f : Char → Bool) (U : List UInt8) : Tok → Tok
+  | .raw c => if cleanRawBy f U c = true then .raw c else escOfByte (UInt8.ofNat c.toNat)
   | t => t
 
-theorem not_cleanRaw {U : List UInt8} {c : Char} (h : ¬ cleanRaw U c = true) :
-    c.toNat < 0x80 ∧ quoteSafe c = false ∧ keepEsc U (UInt8.ofNat c.toNat) = true := by
-  unfold cleanRaw at h
+theorem not_cleanRawBy {f : Char → Bool} {U : List UInt8} {c : Char} (h : ¬ cleanRawBy f U c = true) :
+    c.toNat < 0x80 ∧ f c = false ∧ keepEsc U (UInt8.ofNat c.toNat) = true := by
+  unfold cleanRawBy at h
   by_cases hlt : c.toNat < 0x80
   · simp only [hlt, if_true, Bool.or_eq_true, Bool.not_eq_true', not_or, Bool.not_eq_false,
       Bool.not_eq_true] at h
@@ -561,53 +574,53 @@ theorem itemOf_escOfByte_keep {U : List UInt8} {b : UInt8} (h : keepEsc U b = tr
     itemOf U (escOfByte b) = .lit (escOfByte b) := by
   simp only [escOfByte, itemOf, byteOf_escOfByte, h, if_true]
 
-theorem quoteTok_harden (U : List UInt8) (t : Tok) : quoteTok (harden U t) = quoteTok t := by
+theorem quoteTokBy_hardenBy (f : Char → Bool) (U : List UInt8) (t : Tok) : quoteTokBy f (hardenBy f U t) = quoteTokBy f t := by
   cases t with
   | esc h1 h2 => rfl
   | stray => rfl
   | raw c =>
-    simp only [harden]
+    simp only [hardenBy]
     split
     · rfl
     · rename_i h
-      obtain ⟨hlt, hq, _⟩ := not_cleanRaw h
-      simp only [quoteTok, hq, Bool.false_eq_true, if_false, utf8_ascii hlt, List.map_cons,
+      obtain ⟨hlt, hq, _⟩ := not_cleanRawBy h
+      simp only [quoteTokBy, hq, Bool.false_eq_true, if_false, utf8_ascii hlt, List.map_cons,
         List.map_nil]
       rfl
 
-theorem quoteToks_map_harden (U : List UInt8) (ts : List Tok) :
-    quoteToks (ts.map (harden U)) = quoteToks ts := by
-  simp only [quoteToks, List.flatMap_map, quoteTok_harden]
+theorem quoteToksBy_map_hardenBy (f : Char → Bool) (U : List UInt8) (ts : List Tok) :
+    quoteToksBy f (ts.map (hardenBy f U)) = quoteToksBy f ts := by
+  simp only [quoteToksBy, List.flatMap_map, quoteTokBy_hardenBy]
 
-theorem cleanRaw_decoded {U : List UInt8} {b : UInt8} (hlt : b.toNat < 0x80) (hk : keepEsc U b = false) :
-    cleanRaw U (Char.ofNat b.toNat) = true := by
+theorem cleanRawBy_decoded {f : Char → Bool} {U : List UInt8} {b : UInt8} (hlt : b.toNat < 0x80) (hk : keepEsc U b = false) :
+    cleanRawBy f U (Char.ofNat b.toNat) = true := by
   have hn : (Char.ofNat b.toNat).toNat = b.toNat := toNat_ofNat_of_lt (by omega)
-  simp only [cleanRaw, hn, hlt, if_true, UInt8.ofNat_toNat, hk]
+  simp only [cleanRawBy, hn, hlt, if_true, UInt8.ofNat_toNat, hk]
   simp
 
-theorem itemOf_harden (U : List UInt8) (t : Tok) :
-    itemOf U (harden U t) = mapLit (harden U) (itemOf U t) := by
+theorem itemOf_hardenBy (f : Char → Bool) (U : List UInt8) (t : Tok) :
+    itemOf U (hardenBy f U t) = mapLit (hardenBy f U) (itemOf U t) := by
   cases t with
   | stray => rfl
   | raw c =>
-    simp only [harden]
+    simp only [hardenBy]
     split
     · rename_i hcl
       simp only [itemOf]
       split
       · rfl
-      · simp [mapLit, harden, hcl]
+      · simp [mapLit, hardenBy, hcl]
     · rename_i hcl
-      obtain ⟨hlt, hq, hk⟩ := not_cleanRaw hcl
+      obtain ⟨hlt, hq, hk⟩ := not_cleanRawBy hcl
       rw [itemOf_escOfByte_keep hk]
       simp only [itemOf]
       split
       · rename_i hsp
         subst hsp
         rfl
-      · simp [mapLit, harden, hcl]
+      · simp [mapLit, hardenBy, hcl]
   | esc h1 h2 =>
-    simp only [harden, itemOf]
+    simp only [hardenBy, itemOf]
     split
     · rfl
     · rename_i hk
@@ -617,19 +630,19 @@ theorem itemOf_harden (U : List UInt8) (t : Tok) :
           have := UInt8.lt_iff_toNat_lt.1 hlt; simpa using this
         split
         · rfl
-        · simp only [mapLit, harden]
-          rw [if_pos (cleanRaw_decoded hlt' (by simpa using hk))]
+        · simp only [mapLit, hardenBy]
+          rw [if_pos (cleanRawBy_decoded hlt' (by simpa using hk))]
       · rfl
 
-theorem flush_map_harden (U : List UInt8) (bs : List UInt8) (hb : ∀ b ∈ bs, 0x80 ≤ b.toNat) :
-    (flush bs).map (harden U) = flush bs := by
+theorem flush_map_hardenBy (f : Char → Bool) (U : List UInt8) (bs : List UInt8) (hb : ∀ b ∈ bs, 0x80 ≤ b.toNat) :
+    (flush bs).map (hardenBy f U) = flush bs := by
   apply map_eq_self
   intro t ht
   rcases flush_mem bs hb ht with ⟨h1, h2, rfl⟩ | ⟨c, rfl, hc⟩
   · rfl
-  · simp only [harden]
+  · simp only [hardenBy]
     rw [if_pos]
-    unfold cleanRaw
+    unfold cleanRawBy
     rw [if_neg (by omega)]
 
 theorem byte_itemOf_high {U : List UInt8} {t : Tok} {b : UInt8} (h : itemOf U t = .byte b) :
@@ -649,10 +662,10 @@ theorem byte_itemOf_high {U : List UInt8} {t : Tok} {b : UInt8} (h : itemOf U t 
           intro h; exact hge (UInt8.lt_iff_toNat_lt.2 (by simpa using h))
         omega
 
-theorem unquoteToks_map_harden (U : List UInt8) (ts : List Tok) :
-    unquoteToks U (ts.map (harden U)) = (unquoteToks U ts).map (harden U) := by
+theorem unquoteToks_map_hardenBy (f : Char → Bool) (U : List UInt8) (ts : List Tok) :
+    unquoteToks U (ts.map (hardenBy f U)) = (unquoteToks U ts).map (hardenBy f U) := by
   unfold unquoteToks
-  rw [assemble_mapLit (harden U) (fun b => 0x80 ≤ b.toNat) (flush_map_harden U) _ [] (by simp)
+  rw [assemble_mapLit (hardenBy f U) (fun b => 0x80 ≤ b.toNat) (flush_map_hardenBy f U) _ [] (by simp)
     (by
       intro b hb
       simp only [List.mem_map] at hb
@@ -662,51 +675,51 @@ theorem unquoteToks_map_harden (U : List UInt8) (ts : List Tok) :
   congr 1
   apply List.map_congr_left
   intro t _
-  exact itemOf_harden U t
+  exact itemOf_hardenBy f U t
 
 /-- quoting one canonical token and reading it again: the item of the hardened token, a raw
 non-ASCII character spelled as bytes -/
-theorem items_quoteTok_harden (U : List UInt8) (hU : AsciiSet U) (t : Tok) (hw : CanonTok t)
+theorem items_quoteTokBy_hardenBy {f : Char → Bool} (hf : SafeSet f) (U : List UInt8) (hU : AsciiSet U) (t : Tok) (hw : CanonTok t)
     (hcl : ∀ c, t = .raw c → c ≠ ' ' ∧ staysEscaped c = false) :
-    (quoteTok t).map (itemOf U) = expand (itemOf U (harden U t)) := by
-  by_cases hh : ∃ c, t = .raw c ∧ ¬ cleanRaw U c = true
+    (quoteTokBy f t).map (itemOf U) = expand (itemOf U (hardenBy f U t)) := by
+  by_cases hh : ∃ c, t = .raw c ∧ ¬ cleanRawBy f U c = true
   · obtain ⟨c, rfl, hc⟩ := hh
-    obtain ⟨hlt, hq, hk⟩ := not_cleanRaw hc
-    simp only [harden, hc, if_false, quoteTok, hq, Bool.false_eq_true, utf8_ascii hlt,
+    obtain ⟨hlt, hq, hk⟩ := not_cleanRawBy hc
+    simp only [hardenBy, hc, if_false, quoteTokBy, hq, Bool.false_eq_true, utf8_ascii hlt,
       List.map_cons, List.map_nil, itemOf_escOfByte_keep hk]
     rfl
-  · have hfix : harden U t = t := by
+  · have hfix : hardenBy f U t = t := by
       cases t with
       | raw c =>
-        simp only [harden]
+        simp only [hardenBy]
         rw [if_pos]
-        cases h : cleanRaw U c with
+        cases h : cleanRawBy f U c with
         | true => rfl
         | false => exact absurd ⟨c, rfl, by simp [h]⟩ hh
       | esc h1 h2 => rfl
       | stray => rfl
     rw [hfix]
-    apply items_quoteTok U hU t hw
+    apply items_quoteTokBy hf U hU t hw
     intro c hc
     obtain ⟨h1, h2⟩ := hcl c hc
     refine ⟨h1, ?_, h2⟩
-    cases h : cleanRaw U c with
+    cases h : cleanRawBy f U c with
     | true => rfl
     | false => exact absurd ⟨c, hc, by simp [h]⟩ hh
 
 /-- **unquote, quote, unquote again** = the first result with its raw delimiters and control
 characters spelled as escapes -/
-theorem unquoteToks_quote_unquote_harden (U : List UInt8) (hpct : (0x25 : UInt8) ∈ U)
+theorem unquoteToks_quoteBy_unquote_hardenBy {f : Char → Bool} (hf : SafeSet f) (U : List UInt8) (hpct : (0x25 : UInt8) ∈ U)
     (hU : AsciiSet U) (ts : List Tok) (hw : ∀ t ∈ ts, WfTok t)
     (hst : ∀ c, Tok.raw c ∈ ts → staysEscaped c = false) :
-    unquoteToks U (quoteToks (unquoteToks U ts)) = (unquoteToks U ts).map (harden U) := by
+    unquoteToks U (quoteToksBy f (unquoteToks U ts)) = (unquoteToks U ts).map (hardenBy f U) := by
   have hout := outTok_unquoteToks U ts hw
   have hraw := raw_unquoteToks U hst
   have hitems : ∀ t ∈ unquoteToks U ts,
-      (quoteTok t).map (itemOf U) = expand (itemOf U (harden U t)) := by
+      (quoteTokBy f t).map (itemOf U) = expand (itemOf U (hardenBy f U t)) := by
     intro t ht
     have ho := hout t ht
-    apply items_quoteTok_harden U hU t (canon_of_outTok hpct hw ho)
+    apply items_quoteTokBy_hardenBy hf U hU t (canon_of_outTok hpct hw ho)
     intro c hc
     subst hc
     have hs := hraw c ht
@@ -714,18 +727,43 @@ theorem unquoteToks_quote_unquote_harden (U : List UInt8) (hpct : (0x25 : UInt8)
     rintro rfl
     have := outTok_not_space ho
     exact this
-  have e : (quoteToks (unquoteToks U ts)).map (itemOf U) =
-      (((unquoteToks U ts).map (harden U)).map (itemOf U)).flatMap expand := by
-    simp only [quoteToks, List.map_flatMap, List.flatMap_map]
+  have e : (quoteToksBy f (unquoteToks U ts)).map (itemOf U) =
+      (((unquoteToks U ts).map (hardenBy f U)).map (itemOf U)).flatMap expand := by
+    simp only [quoteToksBy, List.map_flatMap, List.flatMap_map]
     generalize unquoteToks U ts = out at hitems
     induction out with
     | nil => rfl
     | cons t r ih =>
       simp only [List.flatMap_cons]
       rw [hitems t (by simp), ih (fun x hx => hitems x (by simp [hx]))]
-  show assemble ((quoteToks (unquoteToks U ts)).map (itemOf U)) [] = _
+  show assemble ((quoteToksBy f (unquoteToks U ts)).map (itemOf U)) [] = _
   rw [e, assemble_expand]
-  show unquoteToks U ((unquoteToks U ts).map (harden U)) = _
-  rw [unquoteToks_map_harden, unquoteToks_idem U hpct hU]
+  show unquoteToks U ((unquoteToks U ts).map (hardenBy f U)) = _
+  rw [unquoteToks_map_hardenBy, unquoteToks_idem U hpct hU]
+
+/-! ### the default `safe="/"` -/
+
+/-- `hardenBy` for `safely_quote`'s default set -/
+def harden (U : List UInt8) : Tok → Tok
+  | .raw c => if cleanRaw U c = true then .raw c else escOfByte (UInt8.ofNat c.toNat)
+  | t => t
+
+theorem harden_eq_by (U : List UInt8) (t : Tok) : harden U t = hardenBy quoteSafe U t := by
+  cases t <;> rfl
+
+theorem quoteToks_map_harden (U : List UInt8) (ts : List Tok) :
+    quoteToks (ts.map (harden U)) = quoteToks ts := by
+  have e : harden U = hardenBy quoteSafe U := funext (harden_eq_by U)
+  rw [e, quoteToks_eq_by, quoteToks_eq_by]; exact quoteToksBy_map_hardenBy _ U ts
+
+/-- **unquote, quote, unquote again** = the first result with its raw delimiters and control
+characters spelled as escapes -/
+theorem unquoteToks_quote_unquote_harden (U : List UInt8) (hpct : (0x25 : UInt8) ∈ U)
+    (hU : AsciiSet U) (ts : List Tok) (hw : ∀ t ∈ ts, WfTok t)
+    (hst : ∀ c, Tok.raw c ∈ ts → staysEscaped c = false) :
+    unquoteToks U (quoteToks (unquoteToks U ts)) = (unquoteToks U ts).map (harden U) := by
+  have e : harden U = hardenBy quoteSafe U := funext (harden_eq_by U)
+  rw [e, quoteToks_eq_by]
+  exact unquoteToks_quoteBy_unquote_hardenBy safeSet_quoteSafe U hpct hU ts hw hst
 
 end Ural.QuoteUpper
